@@ -209,6 +209,56 @@ def serveLocal (C : Codec) (d : Disk) (l : Lru) (kind : Kind) (hash : String) (s
       if isSizeMismatch size found then (l, none)
       else (l, some { data := file.drop offset.toNat, clean := true, size := found })
 
+/-- index lookup (which refreshes recency) and, on a compatible hit, the attempt to serve the local
+    file: the first half of `availableOrTryProxy` -/
+def localLookup (C : Codec) (d : Disk) (kind : Kind) (hash : String) (size offset : Int) (zstd : Bool) :
+    Lru × Option Hit :=
+  let (l0, found) := Lru.get d.lru (lookupKey kind hash)
+  match found with
+  | some e => if !isSizeMismatch size e.val.size then serveLocal C d l0 kind hash size offset zstd e
+              else (l0, none)
+  | none => (l0, none)
+
+/-- what is served from a freshly fetched file (`none`: the reader could not be constructed) -/
+def serveFetched (C : Codec) (cfg : Cfg) (kind : Kind) (file : Bytes) (foundSize offset : Int) (zstd : Bool) :
+    Option Hit :=
+  if kind ≠ .cas ∨ cfg.mode = .identity then
+    if (file.length : Int) ≠ foundSize then none           -- short/long stream
+    else
+      let rest := file.drop offset.toNat
+      some { data := if zstd then legacyZstd C rest else rest, clean := true, size := foundSize }
+  else if zstd then
+    match readZstd C file foundSize offset with
+    | .ok z => some { data := z, clean := true, size := foundSize }
+    | _ => none
+  else
+    match readRaw C file foundSize offset with
+    | .ok (b, clean) => some { data := b, clean := clean, size := foundSize }
+    | _ => none
+
+/-- the proxy branch of `get` after the reservation (index `l` already holds it) -/
+def fetchFromProxy (C : Codec) (d : Disk) (l : Lru) (kind : Kind) (hash : String) (size offset : Int)
+    (zstd : Bool) (pg : ProxyGet) (rnd : String) : Disk × GetOut :=
+  match pg with
+  | .error => ({ d with lru := release l size }, .err .e500)
+  | .notFound => ({ d with lru := release l size }, .miss)
+  | .found s foundSize =>
+    if foundSize > d.cfg.maxProxyBlobSize then ({ d with lru := release l size }, .miss)
+    else if isSizeMismatch size foundSize || decide (foundSize < 0) then
+      ({ d with lru := release l size }, .miss)
+    else if s.fault then ({ d with lru := release l size }, .err .e500)   -- io.Copy failed
+    else
+      let legacy := decide (kind = .cas ∧ d.cfg.mode = .identity)
+      match serveFetched C d.cfg kind s.data foundSize offset zstd with
+      | none => ({ d with lru := release l size }, .err .e500)
+      | some h =>
+        let item : Item := { size := foundSize, sizeOnDisk := (s.data.length : Int), random := rnd, legacy := legacy }
+        match commit l (lookupKey kind hash) size item with
+        | (l3, .ok) =>
+          ({ d with lru := l3,
+                    files := d.files ++ [(fileLocation kind legacy hash foundSize rnd, s.data)] }, .hit h)
+        | (l3, c) => ({ d with lru := l3 }, .err c)
+
 /-- `diskCache.get` (Get / GetZstd), with the proxy's scripted answer and the random suffix the
     temp-file creator would pick for a fetched entry. -/
 def get (C : Codec) (d : Disk) (kind : Kind) (hash : String) (size offset : Int) (zstd : Bool)
@@ -220,59 +270,15 @@ def get (C : Codec) (d : Disk) (kind : Kind) (hash : String) (size offset : Int)
   else if offset < 0 then (d, .err .e400)
   else if size > 0 ∧ offset ≥ size then (d, .err .e400)
   else
-    let key := lookupKey kind hash
-    let (l0, found) := Lru.get d.lru key
-    let (l1, loc) : Lru × Option Hit :=
-      match found with
-      | some e => if !isSizeMismatch size e.val.size then serveLocal C d l0 kind hash size offset zstd e
-                  else (l0, none)
-      | none => (l0, none)
-    match loc with
-    | some h => ({ d with lru := l1 }, .hit h)
-    | none =>
+    match localLookup C d kind hash size offset zstd with
+    | (l1, some h) => ({ d with lru := l1 }, .hit h)
+    | (l1, none) =>
       if !(d.cfg.hasProxy && decide (size ≤ d.cfg.maxProxyBlobSize)) then ({ d with lru := l1 }, .miss)
       else
         let (l2, rerr) := if size > 0 then reserve l1 size else (l1, none)
         match rerr with
         | some e => ({ d with lru := l2 }, .err (codeOfErr e))
-        | none =>
-          match pg with
-          | .error => ({ d with lru := release l2 size }, .err .e500)
-          | .notFound => ({ d with lru := release l2 size }, .miss)
-          | .found s foundSize =>
-            if foundSize > d.cfg.maxProxyBlobSize then ({ d with lru := release l2 size }, .miss)
-            else if isSizeMismatch size foundSize || decide (foundSize < 0) then
-              ({ d with lru := release l2 size }, .miss)
-            else
-              let legacy := decide (kind = .cas ∧ d.cfg.mode = .identity)
-              if s.fault then ({ d with lru := release l2 size }, .err .e500)   -- io.Copy failed
-              else
-                let file := s.data
-                let ondisk : Int := file.length
-                let uncompressedOnDisk := decide (kind ≠ .cas ∨ d.cfg.mode = .identity)
-                let out : Option Hit :=
-                  if uncompressedOnDisk then
-                    if ondisk ≠ foundSize then none           -- short/long stream (fix: F9)
-                    else
-                      let rest := file.drop offset.toNat
-                      some { data := if zstd then legacyZstd C rest else rest, clean := true, size := foundSize }
-                  else if zstd then
-                    match readZstd C file foundSize offset with
-                    | .ok z => some { data := z, clean := true, size := foundSize }
-                    | _ => none
-                  else
-                    match readRaw C file foundSize offset with
-                    | .ok (b, clean) => some { data := b, clean := clean, size := foundSize }
-                    | _ => none
-                match out with
-                | none => ({ d with lru := release l2 size }, .err .e500)
-                | some h =>
-                  let item : Item := { size := foundSize, sizeOnDisk := ondisk, random := rnd, legacy := legacy }
-                  match commit l2 key size item with
-                  | (l3, .ok) =>
-                    ({ d with lru := l3,
-                              files := d.files ++ [(fileLocation kind legacy hash foundSize rnd, file)] }, .hit h)
-                  | (l3, c) => ({ d with lru := l3 }, .err c)
+        | none => fetchFromProxy C d l2 kind hash size offset zstd pg rnd
 
 /-- `diskCache.Contains` with the proxy's scripted answer `(exists, size)` -/
 def contains (d : Disk) (kind : Kind) (hash : String) (size : Int) (pc : Bool × Int) : Disk × Bool × Int :=
